@@ -81,6 +81,8 @@ MUTANTS = [
     ("c01-repeat-filter-survives-mapping-switch", DEV, "\tfor identifier := range d.lastAnalogValue {", "\tfor identifier := range map[string]float64{} {", ["C01"]),
     ("c06-deadzone-at-center-on-signed-axes", EVS, "\tif analog.DeadzoneAtCenter && !canBeNegative {", "\tif analog.DeadzoneAtCenter {", ["C06", "C07", "C08"]),
     ("c04-semitone-wraps-at-8-bits", DEV, "\td.semitone++\n", "\td.semitone = int(int8(d.semitone + 1))\n", ["C04"]),
+    ("c17-reverse-mapping-modulo-256", "internal/pkg/midi/device/open_rgb.go", "\t\t\tbase := int(noteAndChannel[0]) - offset\n\t\t\tif base < 0 || base > 127 {", "\t\t\tbase := int(noteAndChannel[0]) - offset\n\t\t\tif false {", ["C17"]),
+    ("c06-shared-controller-zeroed", EVS, "\t\toneController := analog.CC == analog.CCNeg && channel == channelNeg", "\t\toneController := false && analog.CC == analog.CCNeg && channel == channelNeg", ["C06"]),
     ("c08-tracker-by-code-only", EVS, "identifier := fmt.Sprintf(\"%s/%s/%d\", ie.Source.Name, ie.Source.DeviceInfo.Event(), ie.Event.Code)", "identifier := fmt.Sprintf(\"%d\", ie.Event.Code)", ["C08"]),
     ("c08-thresholds-swapped", EVS, "\t\tcase value > -0.49 && value < 0.49:\n\t\t\td.AnalogNoteOff(identifier, ie)", "\t\tcase value > -0.3 && value < 0.3:\n\t\t\td.AnalogNoteOff(identifier, ie)", ["C08"]),
     ("c08-noteoff-current-transposition", DEV, "\tnote, channel := noteAndChannel[0], noteAndChannel[1]\n\n\tevent := midi.NoteEvent(midi.NoteOff, channel, note, 0)",
